@@ -542,7 +542,7 @@ c14_bmi2a!(c14_bmi2a_sel1_scalar, quick, 70, crate::c14_accel::cpu_none, bmi2a_s
 c14_bmi2a!(c14_bmi2a_sel1_bmi2, quick, 70, crate::c14_accel::cpu_bmi2, bmi2a_select1);
 c14_bmi2a!(c14_bmi2a_sel0_scalar, thorough, 70, crate::c14_accel::cpu_none, bmi2a_select0);
 c14_bmi2a!(c14_bmi2a_sel0_bmi2, quick, 70, crate::c14_accel::cpu_bmi2, bmi2a_select0);
-c14_bmi2a!(c14_bmi2a_selvar_scalar, quick, 70, crate::c14_accel::cpu_none, bmi2a_select_variants);
+c14_bmi2a!(c14_bmi2a_selvar_scalar, thorough, 70, crate::c14_accel::cpu_none, bmi2a_select_variants);
 c14_bmi2a!(c14_bmi2a_selvar_bmi2, thorough, 70, crate::c14_accel::cpu_bmi2, bmi2a_select_variants);
 c14_bmi2a!(c14_bmi2a_pdep_any_scalar, quick, 70, crate::c14_accel::cpu_none, bmi2a_pdep_any);
 c14_bmi2a!(c14_bmi2a_pdep_byte_bmi2, quick, 70, crate::c14_accel::cpu_bmi2, bmi2a_pdep_byte);
